@@ -158,6 +158,12 @@ func (sesh *Session) OpenStream() (*Stream, error) {
 	}
 	stream := makeStream(sesh, id)
 	sesh.streamsM.Lock()
+	if sesh.IsClosed() {
+		// the session may have been closed since the check above: closeSession sweeps the
+		// stream table under streamsM, so a stream inserted after the sweep would never be closed
+		sesh.streamsM.Unlock()
+		return nil, ErrBrokenSession
+	}
 	sesh.streams[id] = stream
 	sesh.streamsM.Unlock()
 	sesh.streamCountIncr()
